@@ -101,7 +101,7 @@ def case_cost(case):
 
 def _yaml_cfg(root):
     import yaml
-    with open(os.path.join(root, "hashstore.yaml")) as f:
+    with open(os.path.join(root, "hashstore.yaml"), encoding="utf-8") as f:
         y = yaml.safe_load(f)
     return {"store_depth": int(y["store_depth"]), "store_width": int(y["store_width"]), "store_algorithm": y["store_algorithm"],
             "store_metadata_namespace": y["store_metadata_namespace"]}
